@@ -282,6 +282,59 @@ def forgery_ok(r, want):
     return r[3] == WANT_EXC[want]
 
 
+def early_impl(c, snap, wires, max_early, window_open):
+    """Real recvRecord over a stream of records with the early-data tolerance set as given.
+    Returns (list of (type, payload), error code or 0, final seqnum)."""
+    seq, cs = snap
+    rl, sock, st = U.make_rl(c, 'recv', seq, (cs if cs else None))
+    rl.max_early_data = max_early
+    rl.early_data_ok = window_open
+    sock.inp = bytearray(b''.join(wires))
+    out, code = [], 0
+    while sock.inp:
+        try:
+            r = None
+            for r in rl.recvRecord():
+                if isinstance(r, tuple):
+                    break
+            hdr, parser = r
+            out.append((hdr.type, bytes(parser.bytes)))
+        except RuntimeError:
+            break                       # the rest of the input was skipped: recvRecord waits for more
+        except Exception as e:  # noqa
+            code = U.ERR.get(type(e).__name__, 99)
+            break
+    return out, code, rl._readState.seqnum
+
+
+def early_expected(labelled, max_early, window_open):
+    """From the property: undecryptable records are tolerated only until the first record that is processed,
+    and only while their total length stays below max_early_data."""
+    out, used = [], 0
+    for good, rec, body_len in labelled:
+        if good:
+            out.append(rec)
+            window_open = False
+            used = 0
+        elif window_open and used + body_len < max_early:
+            used += body_len
+        else:
+            return out, True
+    return out, False
+
+
+EARLY_PREAMBLE = U.PREAMBLE + '''
+From TV Require Import Model.C02_RecordAccept.
+Definition EarlyCase := (Cfg * Prim TCS * St TCS * Z * bool * list Wire * list (Z * list Z) * Z * Z)%type.
+Definition chk_early (k : EarlyCase) : bool :=
+  let '(c, P, s, maxe, ok, ws, exp, code, fseq) := k in
+  let '(xs, e, r) := recv_stream_e c P maxe {| es_st := s; es_ok := ok; es_used := 0 |} ws in
+  (zlen xs =? zlen exp) && forallb (fun p => (fst (fst p) =? fst (snd p)) && list_eqb (snd (fst p)) (snd (snd p))) (combine xs exp)
+  && (match e with None => code =? 0 | Some err => rerr_code err =? code end)
+  && (negb (code =? 0) || (st_seq (es_st r) =? fseq)).     (* after a fatal error the read state is dead: not compared *)
+'''
+
+
 def error_path_impl(c, wire_bytes_, seq_w=3):
     """Real TLSRecordLayer.read() on one bad record with toy contexts for both directions.
     Returns (exception name, alert description, bytes sent, closed, resumable, readBuffer)."""
@@ -668,8 +721,36 @@ def run(ctx):
 
     # ---------------- (a) toy-exact -------------------------------------------------------------
     lits, meta = [], []
+    early_lits = []
     eff_jobs = []
     defs = []                      # shared configuration / primitive definitions (elaborated once per file)
+    # no key installed yet (server between ClientHello and its own key change): application_data is "undecryptable"
+    for ver in [(3, 3), (3, 4), (3, 1)]:
+        c = mk_cfg(rng, 'plain', ver, {}, seq=0)
+        nm = ('cf%d' % len(defs), 'pr%d' % len(defs))
+        defs.append('Definition %s : Cfg := %s.\nDefinition %s : Prim TCS := %s.' % (nm[0], U.cfg_lit(c), nm[1], U.prim_lit(c)))
+        hv = (3, 3) if ver >= (3, 3) else ver
+
+        def rec(ty, body, hv=hv):
+            return bytes([ty, hv[0], hv[1], len(body) >> 8, len(body) & 255]) + body
+        a, b, h, d = rand_bytes(rng, 40), rand_bytes(rng, 17), rand_bytes(rng, 9), rand_bytes(rng, 5)
+        for pat, maxe, opened in (([(0, 23, a), (0, 23, b), (1, 22, h), (1, 23, d)], 4096, True),
+                                  ([(0, 23, a), (0, 23, b), (0, 23, a)], 60, True),
+                                  ([(1, 23, a), (1, 22, h)], 4096, False)):
+            wires_e = [rec(ty, body) for _, ty, body in pat]
+            labelled = [(bool(gd), (ty, body), len(body)) for gd, ty, body in pat]
+            got, code, fseq = early_impl(c, (0, []), wires_e, maxe, opened)
+            want, want_err = early_expected(labelled, maxe, opened)
+            ctx.count('early-data-window', len(pat), [('plain', ver, tuple(x for x, _, _ in pat), maxe, opened, code)])
+            if got != want or (code != 0) != want_err:
+                found = True
+                ctx.violation('early-window:plain:%s' % (ver,), 'keyless phase, early_data_ok=%s max_early_data=%d: delivered %d records, '
+                              'error code %d; expected %d records and %s' % (opened, maxe, len(got), code, len(want), 'a fatal error' if want_err else 'no error'),
+                              {'cfg': {k: (v.hex() if isinstance(v, bytes) else v) for k, v in c.items()}, 'wires': [w.hex() for w in wires_e],
+                               'max_early': maxe, 'window_open': opened})
+            early_lits.append('(%s, %s, %s, %d, %s, [%s], [%s], %d, %d)' % (
+                nm[0], nm[1], U.st_lit(c, 0, None), maxe, vlib.boollit(opened),
+                ';'.join(U.wire_lit(U.parse_wire(w)) for w in wires_e), ';'.join('(%d, %s)' % (t, blit(pl)) for t, pl in got), code, fseq))
     for mode, ver, kw in toy_combos():
         c = mk_cfg(rng, mode, ver, kw)
         nm = ('cf%d' % len(defs), 'pr%d' % len(defs))
@@ -755,6 +836,40 @@ def run(ctx):
                         found |= oracle_record(ctx, c, cls, rec, r, info)
                     lits.append(U.recv_case_at(c, snaps[1], [U.parse_wire(mw)], [r[:3]], fs, fc, names=nm))
                     meta.append((mode, ver, cls))
+        # --- the early-data tolerance window, every mode and version
+        def forged(w):
+            m = bytearray(w)
+            m[-1] ^= 0x40
+            return bytes(m)
+        g = outs
+        patterns = [([(0, g[0]), (0, g[1]), (1, g[0]), (0, g[2]), (1, g[1])], 4096, True),      # skip, skip, accept, then strict
+                    ([(1, g[0]), (0, g[1]), (1, g[1])], 4096, True),                               # closes at the first record
+                    ([(0, g[0]), (0, g[0]), (0, g[0]), (1, g[0])], len(g[0]) - 5 + len(g[0]) - 5 + 1, True),   # budget: two fit, third does not
+                    ([(0, g[0]), (1, g[0])], 4096, False),                                         # window never opened
+                    ([(0, outs2[0]), (0, outs2[1]), (1, g[0]), (0, outs2[2]), (1, g[1])], 4096, True)]   # records under another key
+        for pat, maxe, opened in patterns:
+            wires_e = [(forged(w) if (not good and w in g) else w) for good, w in pat]
+            labelled, gi = [], 0
+            for (good, w) in pat:
+                if good:
+                    labelled.append((True, recs[gi], len(w) - 5))
+                    gi += 1
+                else:
+                    labelled.append((False, None, len(w) - 5))
+            got, code, fseq = early_impl(c, snaps[0], wires_e, maxe, opened)
+            want, want_err = early_expected(labelled, maxe, opened)
+            ctx.count('early-data-window', len(pat), [(mode, ver, tuple(x for x, _ in pat), maxe > 4000, opened, code)])
+            if got != want or (code != 0) != want_err:
+                found = True
+                ctx.violation('early-window:%s:%s' % (mode, ver),
+                              'recvRecord with early_data_ok=%s, max_early_data=%d on records %s (1 = genuine next record, 0 = forged): '
+                              'delivered %d records, error code %d; the tolerance must end at the first processed record: expected %d '
+                              'records and %s' % (opened, maxe, [x for x, _ in pat], len(got), code, len(want), 'a fatal error' if want_err else 'no error'),
+                              {'cfg': {k: (v.hex() if isinstance(v, bytes) else v) for k, v in c.items()}, 'snap': [snaps[0][0], list(snaps[0][1])],
+                               'wires': [w.hex() for w in wires_e], 'max_early': maxe, 'window_open': opened})
+            early_lits.append('(%s, %s, %s, %d, %s, [%s], [%s], %d, %d)' % (
+                nm[0], nm[1], U.st_lit(c, snaps[0][0], (snaps[0][1] if snaps[0][1] else None)), maxe, vlib.boollit(opened),
+                ';'.join(U.wire_lit(U.parse_wire(w)) for w in wires_e), ';'.join('(%d, %s)' % (t, blit(pl)) for t, pl in got), code, fseq))
         # --- the error path through the real read(): one bad and one good record
         bad = bytearray(outs[0])
         bad[-1] ^= 1
@@ -818,6 +933,11 @@ def run(ctx):
         inj_jobs = [(v, ci, m, e, 29, d, k, frag) for (v, ci, m, e) in inj_combos for d in 'cs' for k in range(0, 10)
                     for frag in ('alert1', 'hs1', 'alert2')]
         inj_results = pool.map(c02_live2.inject_case, inj_jobs, chunksize=4)
+        # every handshake flavour x reading side x attacker action after completion (which unprotected or forged
+        # records are tolerated in which state: after the handshake, none)
+        fl_actions = [('honest',)] + [('inject', k) for k in sorted(c02_live2.PLAIN_RECORDS)] + [('flip',), ('flip-then-honest',), ('swap',)]
+        fl_jobs = [(fl, vic, a, 31) for fl in c02_live2.FLAVOURS for vic in 'cs' for a in fl_actions]
+        fl_results = pool.map(c02_live2.flavour_case, fl_jobs, chunksize=4)
     finally:
         pool.close()
         pool.join()
@@ -864,7 +984,19 @@ def run(ctx):
                           '%d.%d %s/%s etm=%s, %s-> before record %d: %s' % (ver[0], ver[1], ci, m, e, d, k, text),
                           {'inject_args': [list(ver), ci, m, e, seed, d, k, frag], 'result': {k2: v for k2, v in r.items() if k2 != 'args'},
                            'how': 'harness/c02_live2.py inject_case(args)'})
-    ctx.log('live attacker: %d runs, %d KeyUpdate runs, %d handshake injections' % (nlive, len(ku_results), ninj))
+    nfl = 0
+    for r in fl_results:
+        if r.get('skip'):
+            continue
+        nfl += 1
+        fl, vic, a, seed = r['args']
+        ctx.count('flavour-sweep', 1, [(fl, vic, a, r.get('outcome'), r.get('desc'))])
+        for suffix, text in r['viol']:
+            found = True
+            ctx.violation('live:%s:flavour:%s:%s' % (suffix, fl, '/'.join(a)), text,
+                          {'flavour_args': [fl, vic, list(a), seed], 'result': {k: v for k, v in r.items() if k != 'args'},
+                           'how': 'harness/c02_live2.py flavour_case(args)'})
+    ctx.log('live attacker: %d runs, %d KeyUpdate runs, %d handshake injections, %d flavour runs' % (nlive, len(ku_results), ninj, nfl))
     # key-change sites of /repo against the table the model (no_plaintext_survives_key_change) was written for
     _, key_diffs = c01_sites.diff_sites(vlib.REPO)
     ctx.count('key-change-sites', len(c01_sites.EXPECTED_KEY_SITES) + len(c01_sites.EXPECTED_GUARD_SITES), [('sites', len(key_diffs))])
@@ -874,17 +1006,19 @@ def run(ctx):
     # ---------------- model vs implementation -------------------------------------------------------
     if res['model_ok']:
         kinds = (('C02r', 'RecvCase', 'chk_recv', lits, U.PREAMBLE + '\n'.join(defs) + '\n'),
-                 ('C02e', 'EffCase', 'chk_eff', eff_lits, EFFECT_PREAMBLE))
+                 ('C02e', 'EffCase', 'chk_eff', eff_lits, EFFECT_PREAMBLE),
+                 ('C02w', 'EarlyCase', 'chk_early', early_lits, EARLY_PREAMBLE + '\n'.join(defs) + '\n'))
         from multiprocessing.pool import ThreadPool
+        # at most 350 cases per coqc run: memory per shard stays below ~1 GB whatever the tier
         with ThreadPool(2) as tp:
             evals = tp.map(lambda k: vlib.coq_bad_indices(k[0], U.IMPORTS, k[1], k[2], k[3],
-                                                          shard=max(50, (len(k[3]) + 15) // 16), preamble=k[4]), kinds)
+                                                          shard=min(350, max(50, (len(k[3]) + 15) // 16)), preamble=k[4]), kinds)
         for (name, ctype, fn, ls, pre), (bad, errs) in zip(kinds, evals):
             ctx.count('model-vs-impl:' + fn, len(ls), [(fn, len(ls) - len(bad))])
             for e in errs:
                 tie_broken = 'case evaluation failed (%s): %s' % (fn, e[:300])
             for i in bad[:5]:
-                d = '%s %s %s' % meta[i] if fn == 'chk_recv' else ls[i][:200]
+                d = '%s %s %s' % meta[i] if fn == 'chk_recv' else ls[i][:260]
                 ctx.log('%s disagreement: %s' % (fn, d))
                 tie_broken = 'model (%s) disagrees with the implementation on: %s' % (fn, d)
     else:
@@ -922,6 +1056,11 @@ def replay(ctx, path):
         return 1 if v else 0
     if 'keyupdate_args' in r:
         out = c02_live2.keyupdate_case(tuple(r['keyupdate_args']))
+        print(out)
+        return 1 if out['viol'] else 0
+    if 'flavour_args' in r:
+        a = r['flavour_args']
+        out = c02_live2.flavour_case((a[0], a[1], tuple(a[2]), a[3]))
         print(out)
         return 1 if out['viol'] else 0
     if 'inject_args' in r:
